@@ -24,7 +24,13 @@ import (
 
 type Rand struct{ s uint64 }
 
-func NewRand(seed uint64) *Rand { return &Rand{s: seed*0x9E3779B97F4A7C15 + 0x1234567} }
+// NewRand hashes the seed into the start state (nearby seeds must not give shifted copies of one stream).
+func NewRand(seed uint64) *Rand {
+	r := &Rand{s: seed ^ 0x6A09E667F3BCC909}
+	a := r.U64()
+	b := r.U64()
+	return &Rand{s: a ^ (b << 1) ^ 0x1234567}
+}
 func (r *Rand) U64() uint64 {
 	r.s += 0x9E3779B97F4A7C15
 	z := r.s
